@@ -42,9 +42,7 @@ def merge_stats(into, st):
         if isinstance(v, (int, float)):
             into[k] = into.get(k, 0) + v
         elif isinstance(v, dict):
-            d = into.setdefault(k, {})
-            for kk, vv in v.items():
-                d[kk] = d.get(kk, 0) + vv
+            merge_stats(into.setdefault(k, {}), v)
         elif isinstance(v, (set, frozenset)):
             s = into.setdefault(k, set())
             if len(s) < 100000:
